@@ -92,10 +92,12 @@ func defaultStyle() *style {
 
 type election[T comparable] struct {
 	votes map[T]int
+	// order lists the values in the order in which they received their first vote.
+	order []T
 }
 
 func newElection[T comparable]() election[T] {
-	return election[T]{make(map[T]int)}
+	return election[T]{make(map[T]int), nil}
 }
 
 // vote casts a vote for the style, but only if it’s explicit.
@@ -103,14 +105,20 @@ func (e *election[T]) vote(style styleProp[T]) {
 	if !style.isExplicit {
 		return
 	}
+	if _, hasVotes := e.votes[style.value]; !hasVotes {
+		e.order = append(e.order, style.value)
+	}
 	e.votes[style.value] += 1
 }
 
-// tallyUp returns the style that’s most voted for.
+// tallyUp returns the style that’s most voted for. In case of a tie, the
+// style wins that was encountered first, so the result is always the same
+// for the same input.
 func (e *election[T]) tallyUp(defaultValue T) T {
 	max := 0
 	result := defaultValue
-	for value, count := range e.votes {
+	for _, value := range e.order {
+		count := e.votes[value]
 		if count > max {
 			max = count
 			result = value
